@@ -23,7 +23,7 @@ SOURCES = [
 ]
 GEN_MOD = "Ampverif.Gen.C08"
 FLT_MOD = "Ampverif.GenFloat.C08"
-PROP_MODULES = ["Ampverif.Props.C08"]
+PROP_MODULES = ["Ampverif.Props.C08", "Ampverif.Props.C08Memo"]
 P4 = list(X.MOMENTUM_COMPONENTS)
 Q4 = ["Eq", "qx", "qy", "qz"]
 
@@ -565,7 +565,7 @@ class C08Property:
         """thorough tier: replay the compiled declarations of the C08 modules through the kernel"""
         import subprocess
 
-        mods = [*PROP_MODULES, "Ampverif.Lemmas.C08Boost", "Ampverif.Lemmas.C08Einsum", GEN_MOD]
+        mods = [*PROP_MODULES, "Ampverif.Lemmas.C08Boost", "Ampverif.Lemmas.C08Einsum", "Ampverif.Lemmas.C08Memo", GEN_MOD]
         try:
             p = subprocess.run(["lake", "env", "leanchecker", *mods], cwd=common.LEAN, capture_output=True,
                                text=True, timeout=900)
@@ -638,6 +638,20 @@ class C08Property:
         except Exception as e:  # noqa: BLE001
             chk.broken_correspondence("einsum-model", "".join(traceback.format_exception_only(type(e), e))[-600:])
 
+        # call HISTORIES of the four matrix classes (fresh processes, forked pair / long histories, this process):
+        # correspondence with Model/C08Memo.lean + numeric oracle at each expression's own argument
+        hist_found = []
+        try:
+            from tools.corr import C08_history
+
+            hist_found = C08_history.run(chk, common.rng_for(PROP_ID, seed, "history"), tier)
+        except common.InfraError:
+            raise
+        except common.LeanRunError as e:
+            chk.broken_correspondence("history-model", f"Lean driver failed: {e}"[:800])
+        except Exception as e:  # noqa: BLE001
+            chk.broken_correspondence("history-model", "".join(traceback.format_exception_only(type(e), e))[-600:])
+
         # independent oracle on the real code (always; deeper when something broke)
         n = self.n_search[tier] * (4 if chk.broken else 1)
         try:
@@ -645,6 +659,7 @@ class C08Property:
         except Exception as e:  # noqa: BLE001
             found = [{"what": "the real code raised while the property was evaluated",
                       "error": "".join(traceback.format_exception(type(e), e, e.__traceback__))[-1500:]}]
+        found = [*hist_found, *found]
         def severity(f):
             tol = f.get("tolerance")
             val = next((f[k] for k in ("max_abs_diff", "residual", "det_minus_1") if k in f), None)
@@ -681,7 +696,9 @@ PROP = C08Property()
 
 MANIFEST = {
     "technique": "Lean 4 theorems over definitions regenerated from the source (explicit matrices AND the parsed "
-                 "lambdify-generated numpy code, cse off/on), Float-twin validation against the real batched arrays, "
+                 "lambdify-generated numpy code, cse off/on) and over a state-machine model of memoised evaluate() tied by a "
+                 "call-history correspondence (fresh / forked / own process), "
+                 "Float-twin validation against the real batched arrays, "
                  "Lean model of the einsum-subscript generators tied by exact string comparison, independent mpmath oracle",
     "design_ref": "DESIGN.md §3 C08",
     "text": (
@@ -716,6 +733,16 @@ MANIFEST = {
         "(induction; n <= 18 resp. 17, the alphabet limit of the source, beyond which the generated string is malformed — "
         "proved as well) the subscripts of ArrayMultiplication/MatrixMultiplication denote M1(M2(...v)) resp. M1...Mn "
         "under numpy's explicit-mode einsum semantics, over any commutative semiring and any dimension. "
+        "CALL HISTORIES (Props/C08Memo.lean over Model/C08Memo.lean): evaluate() of the four matrix classes as a state "
+        "machine with a process-global memo keyed by an arbitrary key function; memo_pure (every history over expressions "
+        "that the key separates returns, call by call, what a fresh process returns — induction over the history, from any "
+        "memo such calls filled), memo_pure_identity / memo_call_k (the clean tree: key = the expression, or no memo), "
+        "memo_impure_of_collision and memo_pure_iff_injective (transparent on all histories over a set of expressions IFF "
+        "the key is injective on it), pyHash_collision / pyHash_only_collision / hash_key_witness(_reversed) / "
+        "hash_key_only_collision (CPython's hash(-1) == hash(-2): R(-phi) then R(-2 phi) returns the first implementation; "
+        "the only collision of that key), arg_key_witness and noEvents_key_witness (one table for all classes; n_events "
+        "left out of the key). The model abstracts an implementation object to the data of the expression it was built "
+        "from; WHICH expression a real result belongs to is decided by the history correspondence. "
         "Unbounded in all real arguments and in n; nothing is table-bounded. Guards: p != 0 and E > 0 (the source divides "
         "by beta^2; at rest it returns nan — probed and reported), ComplexSqrt of BoostZMatrix.as_explicit read on its real "
         "branch (theorem boostZ_radicand_pos)."
@@ -742,6 +769,23 @@ MANIFEST = {
         "four inversions, N(N(p+q)), N(N(p))+q, and (thorough tier: all; quick: one) boosted momenta with an inversion before / "
         "after / inside the inner boost — on: B(A) = textbook boost at the value of A, Lorentz condition, det, "
         "B(A)A = (m,0,0,0), B(N(A))B(A) = 1, code = as_explicit(), code of A = value of A; wall-clock cap per argument. "
-        "Real-number theorems use Lean's x/0 = 0 only in the unconditional 'code = explicit' equalities."
+        "Real-number theorems use Lean's x/0 = 0 only in the unconditional 'code = explicit' equalities. "
+        "HISTORY correspondence (tools/corr/C08_history.py, every run, quick tier included): a pool of 86 matrix expressions "
+        "(argument shapes c*a, a**c, Integer(c), Rational(c,3), Float(2**c), a+c*b, exp(c*a), c*a*b, momenta p+c*q, "
+        "ArraySum(p,c*q), NegativeMomentum(p+c*q) with c in {-1,-2} and neighbours; other n_events; same symbol name with other "
+        "assumptions; plain arguments) and six operations (evaluate, doit, lambdify cse off/on, as_explicit, latex). Four fresh "
+        "interpreters fork once per history, so each history starts from 'ampform imported, nothing built': single calls "
+        "(the FRESH table), pair histories in BOTH orders — the declared -1/-2 pairs, every pair whose hash() values are "
+        "really equal in this run (evidence: declared_pairs_with_really_equal_hash, equal_expr_hash_groups), a seeded sample "
+        "of pairs with equal ARGUMENT hash, same argument in another class / with another n_events / other assumptions, "
+        "seeded plain pairs — and long seeded histories over the whole pool; one more long history runs in the check's own "
+        "process after everything else. Each call's text (srepr of the implementation, generated source, LaTeX, explicit "
+        "matrix) must equal the fresh text of the same call; it is canonicalised to the pool expression whose fresh result it "
+        "is and diffed against the Lean model run with key = identity (a difference is a broken correspondence); "
+        "independently (oracle) the numeric values of generated code and explicit matrix must equal as_explicit() of the "
+        "expression's OWN argument and the textbook numpy matrix at the value of its own argument (tolerance 1e-9, clean tree "
+        "worst deviation in the evidence). The integer-hash model pyHash is compared with the running interpreter for "
+        "-6..6 (information only). Numeric arguments of rotations make the generated array inhomogeneous on the clean tree "
+        "(ValueError at call time): recorded as observations, required to behave the same in every history."
     ),
 }
